@@ -502,6 +502,15 @@ func saveStatus(ctx context.Context, c client.Client, nodeRuntime *networkv1beta
 	if err != nil {
 		return fmt.Errorf("failed to save node runtime status %w", err)
 	}
+	if changed == controllerutil.OperationResultCreated {
+		// NodeRuntime has a status subresource: the api server ignores .status in a create request,
+		// so what was just created carries none of the reports. Write them now.
+		update.Status = nodeRuntime.Status
+		err = c.Status().Update(ctx, update)
+		if err != nil {
+			return fmt.Errorf("failed to save node runtime status %w", err)
+		}
+	}
 	if changed != controllerutil.OperationResultNone {
 		logf.Log.Info("changed node runtime status", "pods", nodeRuntime.Status.Pods)
 	}
